@@ -91,46 +91,77 @@ func (eb *EventBuilder) AddAuthEvents(provider AuthEventProvider) error {
 	return nil
 }
 
-// TODO: Remove?
+// toEventReference converts a list of prev_events / auth_events into event
+// references. It is used on the event IDs of events built locally; a list that
+// cannot be converted yields no references. Use eventReferencesFrom to learn why.
 func toEventReference(data any) []eventReference {
+	refs, err := eventReferencesFrom(data)
+	if err != nil {
+		return []eventReference{}
+	}
+	return refs
+}
+
+// eventReferencesFrom converts the prev_events / auth_events of an event
+// builder into event references. The list is either a []string of event IDs,
+// a []eventReference, or what encoding/json decoded a proto event received
+// from another server into: a []interface{} whose entries are event IDs or
+// [event ID, hashes] pairs. Entries of any other JSON type are skipped; an
+// empty pair, a pair that doesn't start with a string and an event ID without
+// the '$' sigil are errors.
+func eventReferencesFrom(data any) ([]eventReference, error) {
 	switch evs := data.(type) {
 	case nil:
-		return []eventReference{}
+		return []eventReference{}, nil
 	case []string:
 		newEvents := make([]eventReference, 0, len(evs))
 		for _, eventID := range evs {
-			newEvents = append(newEvents, eventReference{
-				EventID:     eventID,
-				EventSHA256: eventHashFromEventID(eventID),
-			})
+			ref, err := eventReferenceFromEventID(eventID)
+			if err != nil {
+				return nil, err
+			}
+			newEvents = append(newEvents, ref)
 		}
-		return newEvents
+		return newEvents, nil
 	case []eventReference:
-		return evs
+		return evs, nil
 	case []interface{}:
 		evRefs := make([]eventReference, 0, len(evs))
 		for _, b := range evs {
 			evID, ok := b.(string)
-			if ok {
-				evRefs = append(evRefs, eventReference{
-					EventID:     evID,
-					EventSHA256: eventHashFromEventID(evID)},
-				)
-				continue
+			if !ok {
+				ev, isList := b.([]interface{})
+				if !isList {
+					continue
+				}
+				if len(ev) == 0 {
+					return nil, fmt.Errorf("gomatrixserverlib: empty event reference")
+				}
+				if evID, ok = ev[0].(string); !ok {
+					return nil, fmt.Errorf("gomatrixserverlib: event reference must start with an event ID, got %T", ev[0])
+				}
 			}
-			ev, ok := b.([]interface{})
-			if ok {
-				evRefs = append(evRefs, eventReference{
-					EventID:     ev[0].(string),
-					EventSHA256: eventHashFromEventID(ev[0].(string))},
-				)
-				continue
+			ref, err := eventReferenceFromEventID(evID)
+			if err != nil {
+				return nil, err
 			}
+			evRefs = append(evRefs, ref)
 		}
-		return evRefs
+		return evRefs, nil
 	default:
-		return []eventReference{}
+		return []eventReference{}, nil
 	}
+}
+
+// eventReferenceFromEventID returns the event reference for an event ID.
+func eventReferenceFromEventID(eventID string) (eventReference, error) {
+	if len(eventID) == 0 || eventID[0] != '$' {
+		return eventReference{}, fmt.Errorf("gomatrixserverlib: invalid event ID %q", eventID)
+	}
+	return eventReference{
+		EventID:     eventID,
+		EventSHA256: eventHashFromEventID(eventID),
+	}, nil
 }
 
 // Build a new Event.
@@ -173,8 +204,12 @@ func (eb *EventBuilder) Build(
 		// marshal them into 'null' instead of '[]', which is bad. Since the
 		// EventBuilder struct is instantiated outside of gomatrixserverlib
 		// let's just make sure that they haven't been left as nil slices.
-		eventStruct.PrevEvents = toEventReference(eventStruct.PrevEvents)
-		eventStruct.AuthEvents = toEventReference(eventStruct.AuthEvents)
+		if eventStruct.PrevEvents, err = eventReferencesFrom(eventStruct.PrevEvents); err != nil {
+			return nil, fmt.Errorf("EventBuilder.Build: prev_events: %w", err)
+		}
+		if eventStruct.AuthEvents, err = eventReferencesFrom(eventStruct.AuthEvents); err != nil {
+			return nil, fmt.Errorf("EventBuilder.Build: auth_events: %w", err)
+		}
 	case EventFormatV2:
 		// In this event format, prev_events and auth_events are lists of
 		// event IDs as a []string.
@@ -243,6 +278,9 @@ func eventHashFromEventID(eventID string) spec.Base64Bytes {
 	// now, we can just knock the sigil $ off the front and use that
 	// as the event SHA256.
 	var sha spec.Base64Bytes
+	if len(eventID) == 0 {
+		return sha
+	}
 	if err := sha.Decode(eventID[1:]); err != nil {
 		return sha
 	}
